@@ -790,22 +790,47 @@ func (ex *Exec) externalStub(name string) interceptFn {
 			return BoolV{And(cs...)}
 		}
 	case "strings.ToLower":
+		// Model for ARBITRARY bytes. ASCII letters are lower-cased. Exactly two non-ASCII
+		// runes lower-case to ASCII: U+0130 (C4 B0) -> 'i' and U+212A (E2 84 AA) -> 'k'; both
+		// byte sequences are decoded as such in any context (C4/E2 always start a rune). Every
+		// other byte >= 0x80 stays non-ASCII after lowering (possibly as U+FFFD); it is kept
+		// as it is, which is exact for every string the callers accept and irrelevant for the
+		// ones they reject.
 		return func(ex *Exec, a []Value, c *ssa.CallCommon) Value {
 			s := a[0].(StrV)
-			out := make([]*Term, len(s.B))
-			for i, b := range s.B {
+			n := len(s.B)
+			var out []*Term
+			c8 := func(v int64) *Term { return IntConst64(v) }
+			for i := 0; i < n; {
+				b := s.B[i]
+				lo, hi := ex.bounds(byteVal(b))
+				mayHigh := hi == nil || hi.Cmp(big.NewInt(0x80)) >= 0
+				_ = lo
+				if mayHigh && ex.decide(Le(c8(0x80), b)) {
+					if i+1 < n && ex.decide(And(Eq(b, c8(0xC4)), Eq(s.B[i+1], c8(0xB0)))) {
+						out = append(out, c8('i'))
+						i += 2
+						continue
+					}
+					if i+2 < n && ex.decide(And(Eq(b, c8(0xE2)), And(Eq(s.B[i+1], c8(0x84)), Eq(s.B[i+2], c8(0xAA))))) {
+						out = append(out, c8('k'))
+						i += 3
+						continue
+					}
+					out = append(out, b)
+					i++
+					continue
+				}
 				if b.IsConst() {
 					v := b.Val.Int64()
-					if v >= 0x80 {
-						ex.stop("cut_nonascii", "strings.ToLower on non-ASCII byte")
-					}
 					if v >= 'A' && v <= 'Z' {
 						v += 32
 					}
-					out[i] = IntConst64(v)
-					continue
+					out = append(out, c8(v))
+				} else {
+					out = append(out, Ite(And(Le(c8('A'), b), Le(b, c8('Z'))), Add(b, c8(32)), b))
 				}
-				out[i] = Ite(And(Le(IntConst64('A'), b), Le(b, IntConst64('Z'))), Add(b, IntConst64(32)), b)
+				i++
 			}
 			return StrV{B: out}
 		}
@@ -1031,4 +1056,22 @@ func init() {
 
 func init() {
 	intercepts[apdP+"noescape"] = func(ex *Exec, a []Value, c *ssa.CallCommon) Value { return a[0] }
+}
+
+func init() {
+	// apd.asciiLower (the parser's ASCII-only lowering) is summarised by its contract, one
+	// ite per byte, so that the parser harnesses do not fork three ways on every byte. The
+	// contract is discharged against the real code by the VerifAsciiLower harness
+	// (param realAsciiLower=1 runs the real loop).
+	intercepts[apdP+"asciiLower"] = func(ex *Exec, a []Value, c *ssa.CallCommon) Value {
+		if ex.Opt.Params["realAsciiLower"] == "1" {
+			return ex.callReal(ex.P.Pkg.Func("asciiLower"), a)
+		}
+		s := a[0].(StrV)
+		out := make([]*Term, len(s.B))
+		for i, b := range s.B {
+			out[i] = Ite(And(Le(IntConst64('A'), b), Le(b, IntConst64('Z'))), Add(b, IntConst64(32)), b)
+		}
+		return StrV{B: out}
+	}
 }
